@@ -37,8 +37,20 @@
        counterexample.  One flag is an OBSERVED deviation of /repo, found by this check:
        ListPrecodersScaledAlongStreams (see AFullF).
 
+   HISTORIES.  The property quantifies over inputs, but the code answers from caches (the solver's
+   full_F / full_W_H, the channel's per-antenna path-loss expansion).  Besides the star cases the
+   model therefore has CHAINS: consecutive cases served by the SAME channel object and the SAME solver
+   object.  A chain step either re-initialises the channel with another antenna partition of equal
+   totals (keeping the path loss that was set before, or setting a new one) and new precoders /
+   filters, or changes only the transmit powers through the solver's P setter (vector, scalar, None in
+   every order).  What the property demands of a step is a function of the CURRENT inputs alone
+   (`OutOf`), the variable `cache` records which inputs the cached quantities were computed from
+   (`CachesFresh`), and two Dev flags describe the stale-cache regressions.
+
    Laws checked on every case (INVARIANTs): NonNegative, ScaleInvariant (U -> c*U, c a non-zero
-   Gaussian rational, rational ones included), QHermitianPSD, QIsSumOfLinks (Q is a sum of
+   Gaussian rational, AND channel gain -> a*gain with sigma^2 -> a^2 sigma^2: every one of the four
+   power terms is homogeneous, it scales by |c|^2 a^2, hence no SINR changes - for ANY magnitude of c
+   and a; the harness replays this law with factors of 1e-9 / 1e+9 / 1e-17 / 1e+17), QScales, QHermitianPSD, QIsSumOfLinks (Q is a sum of
    A*A^H terms, hence positive semidefinite BY CONSTRUCTION; for Nr <= 2 this is also decided
    exactly through the principal minors), DenIsQuadraticForm (denominator = u^H Q u + own other
    streams), AlgMatches, SolverZeroForcing / SolverAgrees / SolverAlgMatches, CapacityTerms.
@@ -48,7 +60,10 @@ EXTENDS Integers, Sequences, FiniteSets, TLC, Emit, CMat
 
 CONSTANTS Cfgs,     \* sequence of [K, nr, nt, ns, nte, jp, amps] - antenna / stream configurations
           CLo, CHi, \* configuration indices explored by this run; index 0 = the exhaustive 1x1 family
-          Lo, Hi,   \* case numbers explored by this run
+          Chains,   \* sequence of [parts : sequence of configurations with equal K, sources and antenna totals,
+                    \*              ops : sequence over {"init", "reinit", "power"} starting with "init"]
+          HLo, HHi, \* chain configurations explored by this run (HLo > HHi: none)
+          Lo, Hi,   \* case / chain numbers explored by this run
           Seed,     \* seed of the in-spec pseudo-random stream
           Dev       \* [name |-> BOOLEAN]
 
@@ -80,18 +95,21 @@ PaSets  == << << <<1, 1>>, <<2, 1>> >>,
               << <<1, 1>>, <<2, 1>>, <<1, 2>>, <<3, 2>> >> >>
 PeSet   == << <<1, 1>>, <<0, 1>>, <<1, 2>>, <<2, 1>>, <<3, 2>> >>      \* <<1,1>> = the default argument
 ScSet   == << <<2, 0, 1>>, <<-1, 0, 3>>, <<0, 1, 1>>, <<1, 1, 2>>, <<-3, 0, 2>> >>   \* 2, -1/3, i, (1+i)/2, -3/2
+GaSet   == << <<1, 2>>, <<2, 1>>, <<3, 1>> >>                          \* channel gain factors (amplitude) of the twin case
 NoiseTags == <<"none", "zero", "half">>
 NoiseVar(t) == IF t = "half" THEN <<1, 2>> ELSE RZero       \* None and 0 add nothing
+PwKinds == <<"vec", "scalar", "none">>                      \* how the solver's P setter is fed
+FreshOp == [kind |-> "fresh", pl |-> "set", pw |-> "ctor"]
 
 RECURSIVE Str(_, _)
 Str(x, n) == IF n = 0 THEN <<>> ELSE <<x>> \o Str(LcgNext(x), n - 1)
 Start(ci, n) == LcgIter((((Seed % 1000) * 7919 + ci * 12289 + n * 251) % 65536) + 1, 3)
 Pk(s, i, m) == ((s[i] \div 8) % m) + 1               \* i-th draw, uniform-ish on 1..m
 
-\* seeded family: dimensions from Cfgs[ci], every entry drawn from the stream
-MkSeeded(ci, n) ==
-  LET g  == Cfgs[ci]
-      K  == g.K
+\* a case with the dimensions of configuration g, every entry drawn from the stream starting at x0
+\* (unz: receive-filter entries non-zero, plOn: path loss certainly set)
+MkFrom(g, x0, unz, plOn) ==
+  LET K  == g.K
       Ke == Len(g.nte)
       RR == Total(g.nr)
       T  == Total(g.nt)
@@ -101,21 +119,26 @@ MkSeeded(ci, n) ==
       oP == oU + 4 * K                    \* power amplitudes
       oL == oP + K                        \* path-loss amplitudes K x (K + Ke)
       oX == oL + K * (K + Ke)             \* path loss on/off, noise, pe, scale constant
-      s  == Str(Start(ci, n), oX + 4)
+      s  == Str(x0, oX + 5)
       am == AmpSets[g.amps]
       pw == PaSets[g.amps]
-  IN [ id |-> <<ci, n>>, K |-> K, nr |-> g.nr, nt |-> g.nt, ns |-> g.ns, nte |-> g.nte, jp |-> g.jp,
+  IN [ id |-> <<0, 0>>, chain |-> <<>>, step |-> 0, op |-> FreshOp,
+       K |-> K, nr |-> g.nr, nt |-> g.nt, ns |-> g.ns, nte |-> g.nte, jp |-> g.jp,
        H  |-> [i \in 1..RR |-> [j \in 1..C |-> Alpha[Pk(s, (i - 1) * C + j, 6)]]],
        F  |-> [k \in 1..K |-> [a \in 1..(IF g.jp THEN T ELSE g.nt[k]) |-> [b \in 1..g.ns[k] |->
                   Alpha[Pk(s, oF + (k - 1) * 12 + (a - 1) * 2 + b, 6)]]]],
        U  |-> [k \in 1..K |-> [a \in 1..g.nr[k] |-> [b \in 1..g.ns[k] |->
-                  Alpha[Pk(s, oU + (k - 1) * 4 + (a - 1) * 2 + b, 6)]]]],
+                  IF unz THEN AlphaNZ[Pk(s, oU + (k - 1) * 4 + (a - 1) * 2 + b, 5)]
+                         ELSE Alpha[Pk(s, oU + (k - 1) * 4 + (a - 1) * 2 + b, 6)]]]],
        pa |-> [k \in 1..K |-> pw[Pk(s, oP + k, Len(pw))]],
-       pl |-> IF Pk(s, oX + 1, 3) = 1 THEN <<>>
+       pl |-> IF ~plOn /\ Pk(s, oX + 1, 3) = 1 THEN <<>>
               ELSE [k \in 1..K |-> [j \in 1..(K + Ke) |-> am[Pk(s, oL + (k - 1) * (K + Ke) + j, Len(am))]]],
-       noise |-> NoiseTags[Pk(s, oX + 2, 3)],
+       noise |-> NoiseTags[Pk(s, oX + 2, 3)], nsc |-> ROne,
        pe |-> IF Ke = 0 THEN ROne ELSE PeSet[Pk(s, oX + 3, Len(PeSet))],
-       sc |-> ScSet[Pk(s, oX + 4, Len(ScSet))] ]
+       sc |-> ScSet[Pk(s, oX + 4, Len(ScSet))],
+       ga |-> GaSet[Pk(s, oX + 5, Len(GaSet))] ]
+\* seeded family: dimensions from Cfgs[ci]
+MkSeeded(ci, n) == [MkFrom(Cfgs[ci], Start(ci, n), FALSE, FALSE) EXCEPT !.id = <<ci, n>>]
 
 \* exhaustive family (configuration index 0): K = 2, every block 1 x 1, one stream each; case
 \* number n in 0..3887 enumerates ALL 6^4 channel matrices over the alphabet x the three noise
@@ -123,10 +146,11 @@ MkSeeded(ci, n) ==
 ExhCount == 3888
 MkExh(n) ==
   LET hd == n % 1296
-      s  == Str(Start(0, n), 12)
+      s  == Str(Start(0, n), 13)
       am == AmpSets[2]
       pw == PaSets[2]
-  IN [ id |-> <<0, n>>, K |-> 2, nr |-> <<1, 1>>, nt |-> <<1, 1>>, ns |-> <<1, 1>>, nte |-> <<>>, jp |-> FALSE,
+  IN [ id |-> <<0, n>>, chain |-> <<>>, step |-> 0, op |-> FreshOp,
+       K |-> 2, nr |-> <<1, 1>>, nt |-> <<1, 1>>, ns |-> <<1, 1>>, nte |-> <<>>, jp |-> FALSE,
        H  |-> << <<Alpha[(hd % 6) + 1], Alpha[((hd \div 6) % 6) + 1]>>,
                  <<Alpha[((hd \div 36) % 6) + 1], Alpha[((hd \div 216) % 6) + 1]>> >>,
        F  |-> [k \in 1..2 |-> << <<AlphaNZ[Pk(s, k, 5)]>> >>],
@@ -134,9 +158,10 @@ MkExh(n) ==
        pa |-> [k \in 1..2 |-> pw[Pk(s, 4 + k, Len(pw))]],
        pl |-> IF Pk(s, 7, 3) = 1 THEN <<>>
               ELSE [k \in 1..2 |-> [j \in 1..2 |-> am[Pk(s, 7 + (k - 1) * 2 + j, Len(am))]]],
-       noise |-> NoiseTags[(n \div 1296) + 1],
+       noise |-> NoiseTags[(n \div 1296) + 1], nsc |-> ROne,
        pe |-> ROne,
-       sc |-> ScSet[Pk(s, 12, Len(ScSet))] ]
+       sc |-> ScSet[Pk(s, 12, Len(ScSet))],
+       ga |-> GaSet[Pk(s, 13, Len(GaSet))] ]
 
 MkCase(ci, n) == IF ci = 0 THEN MkExh(n) ELSE MkSeeded(ci, n)
 
@@ -145,6 +170,7 @@ NtAll(c)     == c.nt \o c.nte
 NumT(c)      == Total(c.nt)
 Amp(c, k, j) == IF c.pl = <<>> THEN ROne ELSE c.pl[k][j]       \* transmitter / source j -> receiver k
 HasNoise(c)  == c.noise # "none"
+NoiseOf(c)   == RMul(NoiseVar(c.noise), c.nsc)                 \* sigma^2 (nsc = 1 except in twin cases)
 
 \* channel from transmitter (or external source, j > K) j to receiver k, path loss applied
 HBlk(c, k, j) == [a \in 1..c.nr[k] |-> [b \in 1..NtAll(c)[j] |->
@@ -171,7 +197,7 @@ Pow(c, rx, ex, pe, UU, k, l) ==
        intf |-> RSumSeq([j \in 1..c.K |-> RSumSeq([d \in 1..c.ns[j] |->
                    IF j = k /\ d = l THEN RZero ELSE GAbs2(Inner(u, rx[k][j][d]))])]),
        ext  |-> RMul(pe, RSumSeq([e \in 1..Len(ex[k]) |-> GAbs2(Inner(u, ex[k][e]))])),
-       nse  |-> RMul(NoiseVar(c.noise), Norm2(u)) ]
+       nse  |-> RMul(NoiseOf(c), Norm2(u)) ]
 Den(p)      == RAdd(RAdd(p.intf, p.ext), p.nse)
 PowTab(c, FF, UU, pe) ==
   LET rx == RxTab(c, FF)
@@ -189,7 +215,7 @@ CovEl(c, rx, ex, k, a, b, skipUser, skipStream) ==
                  IF j = skipUser /\ (skipStream = 0 \/ d = skipStream) THEN GZero
                  ELSE OuterEl(rx[k][j][d], a, b)])]),
             GScaleRat(c.pe, GSumSeq([e \in 1..Len(ex[k]) |-> OuterEl(ex[k][e], a, b)]))),
-       IF HasNoise(c) /\ a = b THEN GFromRat(NoiseVar(c.noise)) ELSE GZero)
+       IF HasNoise(c) /\ a = b THEN GFromRat(NoiseOf(c)) ELSE GZero)
 QTab(c, FF) ==
   LET rx == RxTab(c, FF)
       ex == ExtTab(c)
@@ -235,6 +261,7 @@ OutOf(c, pt) ==
       q  == QTab(c, FF)
       sn == SinrOfPow(c, pt)
   IN [ sinr |-> sn,
+       pow |-> pt,
        onePlus |-> [k \in 1..c.K |-> [l \in 1..c.ns[k] |-> RAdd(ROne, sn[k][l])]],
        Q |-> q,
        B |-> BTab(c, FF),
@@ -254,7 +281,7 @@ AChan(c, k, j) == Force(IF c.jp THEN AHk(c, k) ELSE AHkl(c, k, j))
 AExtH(c, k)    == [a \in 1..c.nr[k] |-> [e \in 1..Total(c.nte) |->
                      GScaleRat(AAmp(c, k, c.K + Owner(c.nte, e)), c.H[Off(c.nr, k) + a][NumT(c) + e])]]
 APe(c)         == IF Dev.ExtIntPowerIgnored THEN ROne ELSE c.pe
-ANoiseI(c, k)  == MScale(GFromRat(NoiseVar(c.noise)), MIdent(c.nr[k]))
+ANoiseI(c, k)  == MScale(GFromRat(NoiseOf(c)), MIdent(c.nr[k]))
 \* calc_cov_matrix_extint_plus_noise (zero matrix + noise for the class without external sources)
 ARe(c, k, withNoise) ==
   LET e == IF c.nte = <<>> THEN MZero(c.nr[k], c.nr[k])
@@ -274,7 +301,7 @@ ASinr(c, FF, UU, k, l) ==                                                       
       uH  == IF Dev.ConjMissing THEN MTrans(u) ELSE MHerm(u)
       aux == MMul(uH, MMul(AChan(c, k, k), AsCol(Col(FF[k], l))))[1][1]
       den == MMul(uH, MMul(AB(c, FF, k, l), u))[1][1]
-      dn  == IF Dev.NoiseNotFiltered THEN RAdd(GRe(den), NoiseVar(c.noise)) ELSE GRe(den)
+      dn  == IF Dev.NoiseNotFiltered THEN RAdd(GRe(den), NoiseOf(c)) ELSE GRe(den)
   IN  IF den[2] # 0 \/ dn[1] = 0 THEN Bad ELSE RDiv(GAbs2(aux), dn)
 ASinrTab(c, FF, UU) == [k \in 1..c.K |-> [l \in 1..c.ns[k] |-> ASinr(c, FF, UU, k, l)]]
 \* calc_Q / calc_JP_Q: sum over the interfering users + external + noise (when set)
@@ -296,13 +323,19 @@ AFullF(c) == [j \in 1..c.K |->
                ELSE MScale(GFromRat(IF Dev.SolverScalesByP THEN RSq(c.pa[j]) ELSE c.pa[j]), c.F[j])]
 
 (* ---------------------------------------- the star --------------------------------------------- *)
-VARIABLES inp, out
-vars == <<inp, out>>
-NoCase == [id |-> <<-1, -1>>]
+VARIABLES inp, out, cache
+vars == <<inp, out, cache>>
+NoCase == [id |-> <<-1, -1>>, chain |-> <<>>]
 NoOut  == [sinr |-> <<>>]
+\* which inputs the cached quantities of the real objects were computed from
+\*   pa   : the powers inside the solver's full_F / full_W_H
+\*   part : the antenna partition the channel's per-antenna path-loss expansion was made for
+PartOf(c) == <<c.nr, c.nt, c.nte>>
+NoCache == [pa |-> <<>>, part |-> <<>>]
 
-Init == inp = NoCase /\ out = NoOut
+Init == inp = NoCase /\ out = NoOut /\ cache = NoCache
 
+\* a case on fresh objects
 Pick(ci, n) ==
   /\ inp = NoCase
   /\ LET c  == MkCase(ci, n)
@@ -310,10 +343,60 @@ Pick(ci, n) ==
      IN  /\ PowValid(c, pt)                    \* infinite / undefined SINRs are outside the property
          /\ inp' = c
          /\ out' = OutOf(c, pt)
+         /\ cache' = [pa |-> c.pa, part |-> PartOf(c)]
 
 PickExhaustive == \E n \in Lo..Hi : CLo = 0 /\ n < ExhCount /\ Pick(0, n)
 PickSeeded     == \E ci \in CLo..CHi : \E n \in Lo..Hi : ci > 0 /\ Pick(ci, n)
-Next == PickExhaustive \/ PickSeeded
+
+(* ----- chains: consecutive cases on the same channel object and the same solver object ----- *)
+RECURSIVE CountOp(_, _, _)
+CountOp(ops, s, name) == IF s = 0 THEN 0 ELSE CountOp(ops, s - 1, name) + (IF ops[s] = name THEN 1 ELSE 0)
+RECURSIVE Pow3(_)
+Pow3(j) == IF j = 0 THEN 1 ELSE 3 * Pow3(j - 1)
+ChainId(hi, n, s) == <<100 + hi, n * 16 + s>>
+
+\* step s (re-)initialises the channel object: next antenna partition (equal totals), new channel matrix,
+\* precoders, filters, powers (through set_precoders), noise; the path loss is either set anew or - every
+\* other time - simply kept from the previous step (set_pathloss is not called again)
+InitCase(prev, hi, n, s) ==
+  LET hc   == Chains[hi]
+      p    == (CountOp(hc.ops, s, "reinit") % Len(hc.parts)) + 1
+      base == MkFrom(hc.parts[p], Start(100 + hi, n * 16 + s), TRUE, s = 1)
+      keep == s > 1 /\ (n + (s \div 2)) % 2 = 0
+  IN  [base EXCEPT !.id = ChainId(hi, n, s), !.chain = <<hi, n>>, !.step = s,
+                   !.pl = IF keep THEN prev.pl ELSE base.pl,
+                   !.op = [kind |-> IF s = 1 THEN "init" ELSE "reinit", pl |-> IF keep THEN "keep" ELSE "set", pw |-> "ctor"]]
+\* step s changes only the powers, through the P setter of the solver; the j-th power step of chain n is fed
+\* with a vector / a scalar / None according to the j-th base-3 digit of n (all orders occur)
+PowerCase(prev, hi, n, s) ==
+  LET hc   == Chains[hi]
+      j    == CountOp(hc.ops, s, "power")
+      kind == PwKinds[((n \div Pow3(j - 1)) % 3) + 1]
+      pw   == PaSets[hc.parts[1].amps]
+      st   == Str(Start(100 + hi, n * 16 + s), prev.K + 1)
+      pa   == [k \in 1..prev.K |-> IF kind = "vec" THEN pw[Pk(st, k, Len(pw))]
+                                   ELSE IF kind = "scalar" THEN pw[Pk(st, prev.K + 1, Len(pw))] ELSE ROne]
+  IN  [prev EXCEPT !.id = ChainId(hi, n, s), !.step = s, !.pa = pa,
+                   !.op = [kind |-> "power", pl |-> "keep", pw |-> kind]]
+ChainCase(prev, hi, n, s) == IF Chains[hi].ops[s] = "power" THEN PowerCase(prev, hi, n, s) ELSE InitCase(prev, hi, n, s)
+
+\* what the caches of the real objects hold after the step (readers fill them)
+CacheAfter(c) ==
+  [ pa   |-> IF c.op.kind = "power" /\ c.op.pw = "none" /\ Dev.PowerNoneKeepsCaches THEN cache.pa ELSE c.pa,
+    part |-> IF c.op.kind = "reinit" /\ c.op.pl = "keep" /\ Dev.PlExpansionReusedOnEqualShape THEN cache.part ELSE PartOf(c) ]
+
+Step(c) ==
+  LET pt == PowTab(c, FullF(c), c.U, c.pe)
+  IN  /\ PowValid(c, pt)
+      /\ inp' = c
+      /\ out' = OutOf(c, pt)
+      /\ cache' = CacheAfter(c)
+ChainStart == \E hi \in HLo..HHi : \E n \in Lo..Hi : inp = NoCase /\ Step(ChainCase(inp, hi, n, 1))
+ChainStep  == /\ inp # NoCase
+              /\ inp.chain # <<>>
+              /\ inp.step < Len(Chains[inp.chain[1]].ops)
+              /\ Step(ChainCase(inp, inp.chain[1], inp.chain[2], inp.step + 1))
+Next == PickExhaustive \/ PickSeeded \/ ChainStart \/ ChainStep
 
 Emit == EmitCase([inp |-> inp', out |-> out'])
 
@@ -321,14 +404,36 @@ Emit == EmitCase([inp |-> inp', out |-> out'])
 Has == inp # NoCase
 Streams(c) == {kl \in (1..c.K) \X (1..2) : kl[2] <= c.ns[kl[1]]}
 
-TypeOK == Has => /\ inp.K \in 2..3 /\ Len(inp.nr) = inp.K /\ Len(inp.nt) = inp.K /\ Len(inp.ns) = inp.K
+TypeOK == Has => /\ inp.K \in 2..3 /\ inp.step >= 0 /\ (inp.chain = <<>> <=> inp.step = 0) /\ Len(inp.nr) = inp.K /\ Len(inp.nt) = inp.K /\ Len(inp.ns) = inp.K
                  /\ Len(out.sinr) = inp.K
                  /\ \A k \in 1..inp.K : Len(out.sinr[k]) = inp.ns[k]
 
 NonNegative == Has => \A kl \in Streams(inp) : out.sinr[kl[1]][kl[2]][1] >= 0 /\ out.sinr[kl[1]][kl[2]][2] > 0
 
-\* rescaling every receive filter by the non-zero Gaussian rational inp.sc changes no SINR
-ScaleInvariant == Has => SinrTab(inp, FullF(inp), [k \in 1..inp.K |-> MScale(inp.sc, inp.U[k])], inp.pe) = out.sinr
+\* the cached quantities were computed from the current inputs
+CachesFresh == Has => /\ cache.pa = inp.pa
+                      /\ inp.pl # <<>> => cache.part = PartOf(inp)
+
+\* The twin case: every receive filter rescaled by the non-zero Gaussian rational inp.sc, every channel gain
+\* (path-loss amplitude, external sources included) by inp.ga and the noise variance by inp.ga^2.
+\* Each of the four power terms is homogeneous - it is multiplied by |sc|^2 ga^2 - so no SINR changes.
+\* Because the terms scale one by one the law extends to factors of any magnitude.
+Twin(c) == [c EXCEPT !.pl  = [k \in 1..c.K |-> [j \in 1..(c.K + Len(c.nte)) |-> RMul(c.ga, Amp(c, k, j))]],
+                     !.nsc = RMul(c.nsc, RSq(c.ga)),
+                     !.U   = [k \in 1..c.K |-> MScale(c.sc, c.U[k])]]
+ScaleInvariant == Has =>
+  LET t  == Twin(inp)
+      pt == PowTab(t, FullF(t), t.U, t.pe)
+      f  == RMul(GAbs2(inp.sc), RSq(inp.ga))
+  IN  /\ \A kl \in Streams(inp) :
+            LET p == pt[kl[1]][kl[2]]
+                b == out.pow[kl[1]][kl[2]]
+            IN  /\ p.sig = RMul(f, b.sig) /\ p.intf = RMul(f, b.intf)
+                /\ p.ext = RMul(f, b.ext) /\ p.nse = RMul(f, b.nse)
+      /\ SinrOfPow(t, pt) = out.sinr
+\* the interference covariance of the twin is ga^2 times the original one (it does not depend on U)
+QScales == Has => LET t == Twin(inp)
+                  IN  QTab(t, FullF(t)) = [k \in 1..inp.K |-> MScale(GFromRat(RSq(inp.ga)), out.Q[k])]
 
 \* Hermitian; positive semidefinite decided exactly by the principal minors (Nr <= 2)
 QHermitianPSD == Has => \A k \in 1..inp.K :
@@ -344,7 +449,7 @@ LinkSum(c, FF, k) ==
       ecols == Force(ExtCols(c, k))
       he    == Force([a \in 1..c.nr[k] |-> [e \in 1..Total(c.nte) |-> ecols[e][a]]])
       ext   == IF c.nte = <<>> THEN Z ELSE Force(MScale(GFromRat(c.pe), MMul(he, MHerm(he))))
-      nse   == IF HasNoise(c) THEN MScale(GFromRat(NoiseVar(c.noise)), MIdent(c.nr[k])) ELSE Z
+      nse   == IF HasNoise(c) THEN MScale(GFromRat(NoiseOf(c)), MIdent(c.nr[k])) ELSE Z
       RECURSIVE Acc(_)
       Acc(j) == IF j = 0 THEN Force(MAdd(ext, nse)) ELSE Force(MAdd(Acc(j - 1), links[j]))
   IN  Acc(c.K)
